@@ -719,6 +719,36 @@ impl Property for C10 {
             }
             o.class("also-run-with-late-polled-futures");
         }
+        // the same history cut by a connection loss and resumed (or expired) under a second Receive
+        // Maximum: what is re-sent still occupies the limit, and nothing leaks across
+        if out.failures.is_empty() {
+            if let Some(r1) = case.receive_max.filter(|r| *r <= 16) {
+                let steps: Vec<super::misc::Step> = case
+                    .events
+                    .iter()
+                    .filter_map(|e| match e {
+                        Ev::Start { kind: OpKind::Pub1, .. } => Some(super::misc::Step::Pub1),
+                        Ev::Start { kind: OpKind::Pub2, .. } => Some(super::misc::Step::Pub2),
+                        Ev::In(Inbound::Ack { sel, .. }) => Some(if sel % 2 == 0 { super::misc::Step::AckOldest } else { super::misc::Step::AckNewest }),
+                        _ => None,
+                    })
+                    .take(24)
+                    .collect();
+                let n = case.events.len();
+                let r2 = match n % 4 {
+                    0 | 1 => r1,
+                    2 => (r1 / 2).max(1),
+                    _ => r1 + 2,
+                };
+                let expired = n % 5 == 0;
+                if let Some(mut f) = super::misc::run_c10_resume(&steps, r1, r2, expired, &mut o) {
+                    f.msg = format!("[history resumed after a connection loss] {}", f.msg);
+                    o.fail = Some(f);
+                    o.nontrivial = true;
+                    return o;
+                }
+            }
+        }
         o.nontrivial = out.stats.quota_exhausted >= 1 && out.stats.quota_replenished_after_exhaustion >= 1;
         for f in &out.stats.freed_by {
             o.class(format!("slot-freed-by-{f}"));
